@@ -61,8 +61,10 @@ class UVLReader(TextToModel):
         stream = CommonTokenStream(lexer)
         parser = UVLPythonParser(stream)
 
-        # Attach custom error listener
+        # Attach custom error listener (lexical and syntax errors)
         error_listener = CustomErrorListener()
+        lexer.removeErrorListeners()
+        lexer.addErrorListener(error_listener)
         parser.removeErrorListeners()
         parser.addErrorListener(error_listener)
 
